@@ -21,7 +21,7 @@ META = {
     "outside": ["a non-leading '. = X' while no base has been set (the assembler treats it as .link; the property does not say)",
                 "skips above 64 bytes", "'. = X' with -2^16 < X < 0 (wraps modulo 2^16 like a negative base)",
                 "recursive-definition obligations: constants and coefficients limited to -8..8 (the message renders them with str())"],
-    "structure": "expression shapes K, K+M*(E-S), K+M*(E-S)+N*(S-T), via intermediate symbols, >>0, <<1, /2 of differences, M*S (self-dependent)",
+    "structure": "expression shapes K, K+M*(E-S), K+M*(E-S)+N*(S-T), via intermediate symbols, >>0, <<1, /2 of differences, M*S (self-dependent); labels of included files (include first, in the middle, last); own labels shadowing names exported by an earlier file",
     "stubs": [],
 }
 
